@@ -274,6 +274,18 @@ class Repo:
     def func(self, qualname: str) -> FuncInfo:
         """anchor lookup: a vanished anchor is an analysis error, never a silent pass"""
         fi = self.funcs.get(qualname)
+        if fi is None and ":" in qualname:
+            # a module-level function that moved to another module of the package keeps its name: follow it when unique
+            bare = qualname.split(":", 1)[1]
+            cands = [f for k, f in self.funcs.items() if ":" in k and k.split(":", 1)[1] == bare and f.cls is None and f.module.name.startswith("photon_weave")]
+            uniq = {id(f): f for f in cands}
+            if len(uniq) == 1:
+                fi = next(iter(uniq.values()))
+        if fi is None and "." in qualname and ":" not in qualname:
+            # a method that moved to a base class is found through the MRO
+            c, m = qualname.split(".", 1)
+            if c in self.classes and "." not in m:
+                fi = self.resolve_method(c, m)
         if fi is None:
             raise AnalysisError(f"anchor vanished: {qualname}")
         return fi
